@@ -29,8 +29,11 @@ Proof.
     + apply bind_ok in H. destruct H as [f [Hf H]]. apply bind_ok in H. destruct H as [[s u] [Hr H]]. injection H as <- <-.
       cbn [fst]. rewrite app_length. unfold lift. rewrite map_length. cbn [items_width fold_right item_width]. rewrite (IH un s u Hr).
       unfold record_b in Hf. destruct (e_b en) as [| |bnr bnf rb]; try discriminate; injection Hf as <-; reflexivity.
-    + apply bind_ok in H. destruct H as [v [_ H]]. destruct un as [u0|]; [discriminate|].
-      apply bind_ok in H. destruct H as [[s u] [Hr H]]. injection H as <- <-. cbn. f_equal. eapply IH; eassumption.
+    + apply bind_ok in H. destruct H as [v [_ H]].
+      assert (Hx : exists s u, eval_items eval en items (Some v) = Ok (s, u) /\ sl = SlUnnest :: s /\ un' = u).
+      { destruct v as [[| |z|str0|fq]|l]; destruct un as [u0|]; try discriminate;
+          apply bind_ok in H; destruct H as [[s1 u1] [Hr H]]; injection H as <- <-; exists s1, u1; repeat split; assumption. }
+      destruct Hx as [s [u [Hr [-> ->]]]]. cbn. f_equal. eapply IH; eassumption.
     + apply bind_ok in H. destruct H as [v [_ H]]. apply bind_ok in H. destruct H as [[s u] [Hr H]]. injection H as <- <-.
       cbn. f_equal. eapply IH; eassumption.
 Qed.
